@@ -233,3 +233,82 @@ package token
 // @   ensures[C15] bare: identShaped(s) && !isKeywordFold(s) ==> result == s
 // @   ensures[C15] quoted: !(identShaped(s) && !isKeywordFold(s)) ==> len(result) >= 2 && result[0] == 96 && result[len(result) - 1] == 96
 // @   modifies nothing
+
+// ---------------------------------------------------------------------------------------------
+// Pure standard-library functions a maintainer is likely to reach for (search, comparison, counting):
+// trusted as side-effect free, with the part of their result the contracts may need. They are listed so
+// that using one of them does not take a function out of the verifier's reach.
+// @ func bytes.IndexByte
+// @   trusted
+// @   modifies nothing
+// @   ensures 0 - 1 <= result && result < len(b)
+// @   ensures result >= 0 ==> b[result] == c
+// @   ensures forall k: 0 <= k && k < ite(result < 0, len(b), result) ==> b[k] != c
+// @ func bytes.Contains
+// @   trusted
+// @   modifies nothing
+// @ func bytes.Equal
+// @   trusted
+// @   modifies nothing
+// @   ensures result ==> len(a) == len(b)
+// @ func bytes.HasPrefix
+// @   trusted
+// @   modifies nothing
+// @   ensures result ==> len(s) >= len(prefix)
+// @ func strings.Contains
+// @   trusted
+// @   modifies nothing
+// @   ensures result ==> len(s) >= len(substr)
+// @ func strings.ContainsRune
+// @   trusted
+// @   modifies nothing
+// @ func strings.ContainsAny
+// @   trusted
+// @   modifies nothing
+// @ func strings.Count
+// @   trusted
+// @   modifies nothing
+// @   ensures 0 <= result && result <= len(s) + 1
+// @ func strings.HasPrefix
+// @   trusted
+// @   modifies nothing
+// @   ensures result ==> len(s) >= len(prefix)
+// @   ensures result ==> (forall k: 0 <= k && k < len(prefix) ==> s[k] == prefix[k])
+// @ func strings.HasSuffix
+// @   trusted
+// @   modifies nothing
+// @   ensures result ==> len(s) >= len(suffix)
+// @ func strings.Index
+// @   trusted
+// @   modifies nothing
+// @   ensures 0 - 1 <= result && result + len(substr) <= len(s)
+// @ func strings.LastIndexByte
+// @   trusted
+// @   modifies nothing
+// @   ensures 0 - 1 <= result && result < len(s)
+// @   ensures result >= 0 ==> s[result] == c
+// @ func strings.EqualFold
+// @   trusted
+// @   modifies nothing
+// @ func strings.ToLower
+// @   trusted
+// @   modifies nothing
+// @ func strings.TrimSpace
+// @   trusted
+// @   modifies nothing
+// @   ensures len(result) <= len(s)
+// @ func unicode.IsLetter
+// @   trusted
+// @   modifies nothing
+// @   ensures 0 <= r && r < 128 ==> (result <==> isLetter(r))
+// @ func unicode.IsDigit
+// @   trusted
+// @   modifies nothing
+// @   ensures 0 <= r && r < 128 ==> (result <==> isDigit(r))
+// @ func unicode/utf8.RuneLen
+// @   trusted
+// @   modifies nothing
+// @   ensures 0 - 1 <= result && result <= 4
+// @ func unicode/utf8.ValidString
+// @   trusted
+// @   modifies nothing
